@@ -1,6 +1,7 @@
 """C09 Conserved quantities and equilibria survive the discretisation exactly."""
 from __future__ import annotations
 
+import os
 import shutil
 
 import numpy as np
@@ -227,6 +228,28 @@ def run(tier: str, seed: int) -> int:
                  "band-limited states, constant equilibria x orders 1-4")
     run_.assumptions = ["tolerance 2e4 ulps of the state magnitude for the mean, 1e-11 relative for work and fixed points",
                         "3D velocity steppers: conservation of the mean is demanded on solenoidal states; the compressible case is a listed known finding"]
+    # ---- histories across the precision mode (c09_switch.py): one process builds steppers in float32 and then in float64 (and the other way round);
+    # equilibria stay fixed and the mean conserved to the rounding of the mode active at construction
+    import json as _json
+    import subprocess as _sp
+    import sys as _sys
+    for _first in ("0", "1"):
+        _outp = os.path.join(tlc.SCRATCH, f"c09sw.{os.getpid()}.{_first}.json")
+        _env = dict(os.environ, VERIF_C09_FIRST=_first, VERIF_C09_OUT=_outp, JAX_PLATFORMS="cpu")
+        _env.pop("JAX_ENABLE_X64", None)
+        _pr = _sp.run([_sys.executable, "-m", "harness.checks.c09_switch"], env=_env, capture_output=True, text=True, timeout=1800,
+                      cwd=os.path.dirname(os.path.dirname(os.path.dirname(os.path.abspath(__file__)))))
+        if _pr.returncode != 0 or not os.path.exists(_outp):
+            raise RuntimeError("precision-switch child failed:\n" + _pr.stdout[-1500:] + _pr.stderr[-1500:])
+        _res = _json.load(open(_outp))
+        os.remove(_outp)
+        for _ph in _res["phases"]:
+            for _c in _ph["cases"]:
+                run_.case(("precision-switch", _first, _ph["x64"], _c["what"], _c["cls"], _c["order"]))
+                if _c["dtype"] != ("float64" if _ph["x64"] else "float32") or not _c["err_over_eps"] <= 2000:
+                    run_.violation({"kind": "precision-switch", "what": _c["what"], "cls": _c["cls"], "order": _c["order"],
+                                    "mode": ("float64" if _ph["x64"] else "float32") + (" phase, first" if str(int(_ph["x64"])) == _first else " phase, after the other mode")},
+                                   {"dtype": _c["dtype"], "error_in_units_of_eps": _c["err_over_eps"]})
     return run_.finish()
 
 
